@@ -11,9 +11,9 @@ thread pre-emption, large outputs).
 import copy
 
 from . import harness
-from .engine import Violation, gen_costs, collect_info, cut, gen_dt, gen_eintr
+from .engine import Violation, gen_costs, collect_info, cut, gen_dt, gen_eintr, gen_intr
 from .harness import EOF, TIMEOUT
-from .world import SimHang, HarnessError
+from .world import SimHang, HarnessError, SimInterrupt
 
 VT_BUDGET_US = 1500000      # virtual time without any progress before giving up
 
@@ -123,6 +123,7 @@ def generate(rng):
     if n > 5000:
         scn['record_sites'] = False
     gen_eintr(rng, scn)
+    gen_intr(rng, scn, p=0.08, nmax=12)
     return scn
 
 
@@ -253,12 +254,19 @@ def _drain(r, scn):
                 r.sock.settimeout(retime[ncalls])
                 sock0 = r.sock.gettimeout()
             try:
-                s = child.read_nonblocking(size, T)
+                w.intr_armed = True
+                try:
+                    s = child.read_nonblocking(size, T)
+                finally:
+                    w.intr_armed = False
             except EOF:
                 ended = 'EOF'
                 break
             except TIMEOUT:
                 s = None
+            except SimInterrupt:
+                s = None          # abandoned from outside while it waited: nothing was returned, nothing may be lost
+                w.probe('read_interrupted_from_outside')
             if r.sock is not None and r.sock.gettimeout() != sock0 and r.sock_bad is None:
                 r.sock_bad = (sock0, r.sock.gettimeout())
             if s is None or len(s) == 0:
@@ -272,13 +280,25 @@ def _drain(r, scn):
         acc = child.string_type()
         while True:
             try:
-                if mode == 'expect_eof':
-                    child.expect(EOF, timeout=T)
-                    acc += child.before
-                else:
-                    acc += child.read()
+                w.intr_armed = True
+                try:
+                    if mode == 'expect_eof':
+                        child.expect(EOF, timeout=T)
+                        acc += child.before
+                    else:
+                        acc += child.read()
+                finally:
+                    w.intr_armed = False
                 ended = 'EOF'
                 break
+            except SimInterrupt:
+                # what the abandoned call had read stays pending and comes back from the next call
+                w.probe('read_interrupted_from_outside')
+                if r.sock is not None and r.sock.gettimeout() != sock0 and r.sock_bad is None:
+                    r.sock_bad = (sock0, r.sock.gettimeout())
+                if stalled():
+                    ended = 'budget'
+                    break
             except TIMEOUT:
                 if stalled():
                     acc += child.before
